@@ -1,6 +1,7 @@
 package main
 
 import (
+	"go/ast"
 	"fmt"
 	"go/token"
 	"go/types"
@@ -590,6 +591,12 @@ func (x *Exec) callContract(fr *Frame, st *State, fc *FuncContract, callee *ssa.
 		if err != nil {
 			return Val{}, engineErr("call %s requires %q: %v", fc.Key, c.Text, err)
 		}
+		if x.waived("requires") {
+			// "waive requires": the callees' preconditions are established elsewhere (stated in the contract's comment)
+			u.Trust(fmt.Sprintf("%s: preconditions of callees waived by contract (assumed to hold at the call: %s)", x.topName, fc.Key))
+			u.Assume(Implies(st.PC, g))
+			continue
+		}
 		u.AddObligation(x.topName, fmt.Sprintf("requires@%s.c%d", tag, ci+1), pos, x.lab(nil), c.Text, st.PC, g)
 	}
 	pre := st.Clone()
@@ -650,6 +657,10 @@ func (x *Exec) callContract(fr *Frame, st *State, fc *FuncContract, callee *ssa.
 		}
 		g, err := post.Bool(c.E)
 		if err != nil {
+			if name := unknownIdentOf(err); name != "" && calleeHasLocal(callee, name) {
+				// a clause about a local of the callee (e.g. its scratch buffer): it says nothing a caller can use
+				continue
+			}
 			return Val{}, engineErr("call %s ensures %q: %v", fc.Key, c.Text, err)
 		}
 		u.Assume(Implies(st.PC, g))
@@ -968,4 +979,48 @@ func (x *Exec) recvInvariant(fr *Frame, st *State, ch ssa.Value, v Val) (Term, b
 		return g, true, nil
 	}
 	return Term{}, false, nil
+}
+
+// unknownIdentOf extracts the name from an "unknown identifier" evaluation error ("" for any other error).
+func unknownIdentOf(err error) string {
+	m := err.Error()
+	i := strings.Index(m, "unknown identifier \"")
+	if i < 0 {
+		return ""
+	}
+	m = m[i+len("unknown identifier \""):]
+	if j := strings.Index(m, "\""); j >= 0 {
+		m = m[:j]
+	}
+	if j := strings.Index(m, "#"); j >= 0 {
+		m = m[:j]
+	}
+	return m
+}
+
+// calleeHasLocal reports whether the function has a local variable (not a parameter) of that source name.
+func calleeHasLocal(fn *ssa.Function, name string) bool {
+	if fn == nil {
+		return false
+	}
+	for _, p := range fn.Params {
+		if p.Name() == name {
+			return false
+		}
+	}
+	for _, b := range fn.Blocks {
+		for _, ins := range b.Instrs {
+			switch t := ins.(type) {
+			case *ssa.Alloc:
+				if t.Comment == name {
+					return true
+				}
+			case *ssa.DebugRef:
+				if id, ok := t.Expr.(*ast.Ident); ok && id.Name == name && !t.IsAddr {
+					return true
+				}
+			}
+		}
+	}
+	return false
 }
